@@ -5,7 +5,9 @@
 mod probe;
 mod scen_cfg;
 mod scen_gate;
+mod scen_hist;
 mod scen_rt;
+mod scen_visit;
 mod util;
 
 use wv_gen::log::{Rec, Writer};
@@ -34,6 +36,8 @@ fn run_case(idx: u64, c: &CaseDesc, w: &mut Writer) {
             "rt" => scen_rt::run(input, &c.scenario, &mut end),
             "gate" => scen_gate::run(input, &mut end),
             "cfg" => scen_cfg::run(input, &mut end),
+            "hist" => scen_hist::run(input, &mut end),
+            "visit" => scen_visit::run(input, &mut end),
             other => end.push_s("harness_error", &format!("unknown scenario {}", other)),
         }
     } else {
